@@ -227,6 +227,10 @@ def run(ctx):
             if c.desc[0] == "struct":
                 dv = tg.struct_as_dict(c.desc, v)
                 if dv is not None:
+                    if rep % 2:  # key order of a dict carries no meaning
+                        ks = list(dv)
+                        rng.shuffle(ks)
+                        dv = {k_: dv[k_] for k_ in ks}
                     st2, enc2 = lib_encode(c.lib, dv)
                     res.ev()
                     if enc is not None and (st2 != "ok" or bytes(enc2) != enc):
